@@ -112,7 +112,7 @@ class UDSScanner(Scanner, ABC):
                 await self.db_handler.insert_scan_run(self.config.target.raw)
                 self._apply_implicit_logging_setting()
             except Exception as e:
-                logger.warning(f"Could not write the scan run to the database: {e:!r}")
+                logger.warning(f"Could not write the scan run to the database: {e!r}")
 
         if self.config.ecu_reset is not None:
             resp: UDSResponse = await self.ecu.ecu_reset(self.config.ecu_reset)
